@@ -436,3 +436,36 @@ Proof.
   destruct x as [|b0 x]; [discriminate|]. cbn [in_range] in Hma, Hmb.
   rewrite !andb_true_iff, !N.leb_le in Hma, Hmb. lia.
 Qed.
+
+(* ---------- cost of the merge loop ---------- *)
+(* one round inspects every ordered pair: at most n^2 candidates *)
+Lemma merge_candidates_bound L cands :
+  merge_candidates L = Some cands -> (length cands <= length L * length L)%nat.
+Proof.
+  rewrite merge_candidates_eq.
+  assert (H : forall prs cs, fold_right (cand_step L) (Some []) prs = Some cs -> (length cs <= length prs)%nat).
+  { induction prs as [|[i j] prs IH]; intros cs Hc; [inversion Hc; cbn; lia|].
+    cbn [fold_right] in Hc. unfold cand_step at 1 in Hc.
+    destruct (fold_right (cand_step L) (Some []) prs) as [l|] eqn:E; [|discriminate].
+    specialize (IH l eq_refl).
+    destruct (nth_error L i) as [r|]; [|discriminate]. destruct (nth_error L j) as [s|]; [|discriminate].
+    destruct (negb (Nat.eqb i j) && can_merge r s).
+    - destruct (merge_pos (fst r) (snd r) (fst s) (snd s)); [|discriminate]. inversion Hc; subst. cbn [length]. lia.
+    - inversion Hc; subst. cbn [length]. lia. }
+  intro Hc. apply H in Hc. rewrite prod_length, !seq_length in Hc. exact Hc.
+Qed.
+
+(* every round removes one range, so the loop ends within (number of ranges + 1) rounds:
+   it never exhausts that fuel, and the result has at least one range if there was one *)
+Lemma merge_rounds_bound L : MInv L ->
+  exists L', merge_loop (S (length L)) L = Some L' /\ (length L' <= length L)%nat.
+Proof.
+  intro HL.
+  assert (H : forall fuel L, MInv L -> (length L < fuel)%nat ->
+              exists L', merge_loop fuel L = Some L' /\ (length L' <= length L)%nat).
+  { induction fuel as [|fuel IH]; intros L0 HL0 Hf; [lia|].
+    cbn [merge_loop]. destruct (merge_step_ok L0 HL0) as [->|(L1 & -> & HL1 & Hlen & H2 & _)].
+    - exists L0. split; [reflexivity|lia].
+    - destruct (IH L1 HL1 ltac:(lia)) as (L' & -> & Hle). exists L'. split; [reflexivity|lia]. }
+  apply H; [assumption|lia].
+Qed.
